@@ -18,12 +18,16 @@ REQUIRED = [
     stack_new_pos stack_2d_eq_nd stack_2d_path_eq_nd_path stack_shape stack_value stack_drop stack_pad
     stack_short stack_error_iff stack_pure""".split()
 ] + ["PdsVerif.PostArithTie." + n for n in ["base_len_eq", "baseFilter_eq_gen", "max_offset_eq", "slice_lo_eq", "slice_hi_eq",
-                                            "delta1d_eq_gen", "shape_facts"]]
+                                            "delta1d_eq_gen", "shape_facts", "stack_new_eq_gen", "stack_axis_eq",
+                                            "stack_time_axis_eq", "stack_rem_eq", "stack_pad_before_eq", "stack_pad_after_eq",
+                                            "stack_T_padded_eq", "stack_nT_eq", "stack_nF_eq", "stack_T_kept_eq",
+                                            "stack_prepare_eq_gen", "stack_pathNd_eq_gen", "stack_shape_facts"]]
 
 
 def translate(repo):
-    """arithmetic of Deltas (base filter, recursion, max_offset, slice bounds, pad widths) -> Generated/PostArith.lean
-    (theorems: Props/PostArithTie.lean)"""
+    """arithmetic of Deltas (base filter, recursion, max_offset, slice bounds, pad widths) and of Stack (init guard, both
+    `%`, rem, pad widths, padded length, nT, nF, kept length, the strided slices and the statement order of both branches)
+    -> Generated/PostArith.lean (theorems: Props/PostArithTie.lean)"""
     from .translate import postarith
     return postarith.generate(repo)
 
@@ -68,15 +72,17 @@ LEVEL_TEXT = (
     "pad mode and num_vectors: output shapes, block 0 = input, every delta block equals sum_j filt_d[j]*ext(lane)(t+j-dW) "
     "as implemented by pad + correlate('full') + crop, the code's filters equal Kaldi's scales (and = integer taps / Z^d), "
     "edge mode equals Kaldi's Process, Stack value formula, 2-D reshape path = N-D strided path as tensors, drop / pad / "
-    "T<n behaviour, exact error conditions.  The model is tied to the code by exact-rational correspondence through the "
-    "public API."
+    "T<n behaviour, exact error conditions.  The model is tied to the code by translation (postarith.py -> "
+    "Generated/PostArith.lean, Props/PostArithTie.lean: Deltas' base filter, recursion, max_offset and slice bounds; Stack's "
+    "init guard and the whole integer part of apply - both %, rem, pad widths, padded length, nT, nF, kept length, N-D slices, "
+    "statement order of both branches) and by exact-rational correspondence through the public API."
 )
 LEVEL_NOTE = (
     "Trusted: Lean kernel, std axioms, the index semantics assigned to the NumPy primitives (exercised on every case), "
     "value semantics for in_place (input-unchanged is tested, not proved), float round-off / dtype cast outside theorems. "
     "context_window >= 1."
 )
-TECHNIQUE = "Lean 4 proof over a hand-written executable tensor model + exact-rational correspondence + naive-loop oracle"
+TECHNIQUE = "Lean 4 proof over a hand-written executable tensor model + translator tie (Deltas and Stack arithmetic regenerated from post.py) + exact-rational correspondence + naive-loop oracle"
 
 DTYPES = ["int32", "int64", "float32", "float64"]
 SELECT_MODES = ["constant", "edge", "reflect", "symmetric", "wrap", "maximum", "minimum"]
